@@ -26,7 +26,18 @@ RULE = ('histories over the name lattice /a, /a/b, /a/b/c, /x (with/without impl
         'by Data / Nack / cancel / timeout (holes above, between and below); the other names validating, verdicts and late '
         'packets after the shutdown} - every pending Interest must end Cancelled at the shutdown; a fifth of the random '
         'histories end with a shutdown (some on a pending deadline); thorough: all histories up to 5 events over '
-        '2 names x 3 Interests + a 1/40 sample of the 6-event ones; both front-ends. non-trivial = at least one Interest and more than two events')
+        '2 names x 3 Interests + a 1/40 sample of the 6-event ones; both front-ends. DEFERRED FIRST AWAIT (the coroutine returned by '
+        'express() starts to run d after the Interest was expressed, 0 < d < lifetime, any events in between; outcome and timeout time '
+        'are fixed by express time + lifetime, the specification automaton ignores Await): window table d {1, 40, 99} x packet (Data, '
+        'Nack, slow verdict, Data under a CanBePrefix Interest, Data for an implicit digest) at D-1, D, D+1, D+d-1, D+d, D+d+1 (at D and '
+        'D+d in all three tie modes) next to an Interest on the same name awaited at once; nothing arrives; packet / shutdown before the '
+        'first await; express-all-then-collect chains (the k-th result awaited when the (k-1)-th is there, Data just before / after D '
+        'and D + waiting time); EVERY well-formed targeted pattern above with the awaits of its Interests deferred (each alone by 1, '
+        'half, lifetime-1, before / behind the other events of that millisecond; all together; two rotating plans for the Nack-reason '
+        'and shutdown tables in quick); random well-formed histories with a random subset of awaits deferred; oracle clause '
+        'timeout-not-at-deadline (every InterestTimeout at express time + lifetime, also in the well-formed histories). Judged by the '
+        'specification for appv2; the legacy front-end counts the lifetime from the first await (docs/C03.md) and is compared with its '
+        'model only (counted as v1.deferred-await.not-judged). non-trivial = at least one Interest and more than two events')
 ASSUMPTIONS = ['asyncio (CPython 3.12: Future, Task.cancel, wait_for/timeouts.Timeout, FIFO ready queue) is the event '
                'alphabet of the model; the three tie modes are the linearisations a loop turn permits',
                'validators are harness coroutines that answer at once or wait on a harness future; validators raising '
@@ -98,6 +109,12 @@ def run(ctx):
                 P.check_history(ctx, fe, h, f'enum{k}', 'C03')
                 cnt += 1
             ctx.stat(f'{fe}.enum.total', cnt)
+    for fe in ('v2', 'v1'):
+        k = ctx.stats.get(f'{fe}.deferred-await.not-judged', 0)
+        if k:
+            ctx.notes.append(f'{fe}: {k} histories with a deferred first await were compared with the model but NOT judged by the '
+                             f'specification: this front-end starts the lifetime at the first await of the coroutine returned by '
+                             f'express_interest, not at express (docs/C03.md, "Deferred first await"); see _pipeline.DEFERRED_ORACLE')
 
 
 def replay(ctx, data):
